@@ -307,6 +307,26 @@ func checkClaimVesting(P *core.Program, R *core.Report) {
 			if isAcc(coins) {
 				okAmt = true
 			}
+			// or the native coin looked up in the accumulated claims: acc.Find(native) (its coin)
+			if !okAmt {
+				var cand []ssa.Value
+				if isLit {
+					cand = els
+				} else if nc, ok := coins.(*ssa.Call); ok && core.CalleeName(nc.Common()) == "NewCoins" && len(nc.Common().Args) == 1 {
+					if e2, ok := core.SliceLiteral(ff.Fwd(nc.Common().Args[0])); ok {
+						cand = e2
+					} else {
+						cand = []ssa.Value{nc.Common().Args[0]}
+					}
+				}
+				if len(cand) == 1 {
+					if ex, ok := ff.Fwd(cand[0]).(*ssa.Extract); ok && ex.Index == 1 {
+						if fc, ok := ex.Tuple.(*ssa.Call); ok && core.CalleeName(fc.Common()) == "Find" && len(fc.Common().Args) == 2 && isAcc(fc.Common().Args[0]) {
+							okAmt = true
+						}
+					}
+				}
+			}
 			// or a separate running sum of the native per-entry payouts: Σ newClaim over the
 			// entries whose denom is the native constant (≡ AmountOf(native) of the claims)
 			if !okAmt && isLit && len(els) == 1 {
@@ -669,6 +689,19 @@ func checkProcessVesting(P *core.Program, R *core.Report) {
 					one = true // result of DeductClaimed
 				}
 				if dc, ok := d.(*ssa.Call); ok && calleeMatches(P, dc, "x/commitment/types.Commitments.SubClaimed") && len(dc.Common().Args) > 0 {
+					// the very local the deduction was applied to in place (its address escapes to
+					// SubClaimed, so loads of it are not forwarded): same variable, deduction first
+					if o.Kind == "local" && core.Dominates(dc, c) {
+						var al ssa.Value
+						if u, isU := o.Val.(*ssa.UnOp); isU {
+							al = u.X
+						} else {
+							al = o.Val
+						}
+						if al != nil && dc.Common().Args[0] == al {
+							one = true
+						}
+					}
 					for _, ro := range recordOrigins(ff, dc.Common().Args[0]) {
 						if ro.Val == o.Val && o.Val != nil && core.Dominates(dc, c) {
 							one = true // the record SubClaimed was called on, before this store
